@@ -529,3 +529,147 @@ Section Structure.
         apply Forall2_app; [assumption|apply Forall2_app; assumption].
   Qed.
 End Structure.
+
+(* ------------------------------------------------------------------ *)
+(* the export is inside the DOT subset: every identifier and string can be lexed back *)
+
+Definition id_digits (s : bytes) : Prop := s <> [] /\ forallb is_digit s = true.
+
+Lemma digit_idchar c : is_digit c = true -> is_idchar c = true.
+Proof. unfold is_idchar. intros ->. reflexivity. Qed.
+
+Lemma digits_idchars s : forallb is_digit s = true -> forallb is_idchar s = true.
+Proof.
+  induction s as [|c s IH]; [reflexivity|]. cbn [forallb]. intros H.
+  apply andb_true_iff in H. destruct H as [Hc Hs]. rewrite (digit_idchar c Hc), IH; auto.
+Qed.
+
+Lemma digits_no_bslash s : forallb is_digit s = true -> ~ In 92%N s.
+Proof.
+  intros H Hin. rewrite forallb_forall in H. specialize (H _ Hin). discriminate.
+Qed.
+
+Lemma id_digits_ok s : id_digits s -> id_ok s /\ not_kw s.
+Proof.
+  intros [Hne Hd]. split; [split; [exact Hne|apply digits_idchars; exact Hd]|].
+  destruct s as [|c s]; [congruence|]. cbn [forallb] in Hd. apply andb_true_iff in Hd.
+  destruct Hd as [Hc _]. unfold not_kw, kw_subgraph, kw_graph. cbn [bytes_eqb].
+  unfold is_digit in Hc. apply andb_true_iff in Hc. destruct Hc as [_ Hc]. apply N.leb_le in Hc.
+  split.
+  - destruct (N.eqb_spec c 115); [lia|reflexivity].
+  - destruct (N.eqb_spec c 103); [lia|reflexivity].
+Qed.
+
+Lemma not_in_app (x : N) a b : ~ In x a -> ~ In x b -> ~ In x (a ++ b).
+Proof. intros Ha Hb H. apply in_app_iff in H. tauto. Qed.
+
+Section Lexable.
+  Variable rq : rmap.
+  Variable inf : infos.
+  Variable idf : nat -> bytes.
+  Hypothesis Hidf : forall j, id_digits (idf j).
+  Hypothesis Hlab : forall j l, jlabel (inf j) = Some l -> ~ In 92%N l.
+
+  Lemma cluster_ok j : id_ok (cluster idf j).
+  Proof.
+    destruct (Hidf j) as [Hne Hd]. unfold cluster. split.
+    - intro E. apply app_eq_nil in E. destruct E; discriminate.
+    - rewrite forallb_app. rewrite (digits_idchars _ Hd). reflexivity.
+  Qed.
+
+  Lemma style_attrs_ok atomic j : Forall attr_ok (style_attrs inf idf atomic j).
+  Proof.
+    assert (K : forall s, s = k_style \/ s = k_label \/ s = k_shape \/ s = k_color \/ s = k_penwidth
+                     -> id_ok s).
+    { intros s [->|[->|[->|[->| ->]]]]; (split; [discriminate|reflexivity]). }
+    assert (Hl : ~ In 92%N (graph_label inf idf j)).
+    { unfold graph_label. apply not_in_app; [apply digits_no_bslash; apply Hidf|].
+      apply not_in_app; [cbn; intuition discriminate|].
+      unfold text_label. destruct (jlabel (inf j)) as [l|] eqn:E; [eapply Hlab; eauto|].
+      cbn. intuition discriminate. }
+    unfold style_attrs. apply Forall_app. split.
+    - repeat constructor; cbn [fst snd]; try (apply K; tauto); try exact Hl.
+      + destruct atomic, (jforever (inf j)); cbn; intuition discriminate.
+      + cbn. intuition discriminate.
+    - destruct (jcrit (inf j)); repeat constructor; cbn [fst snd]; try (apply K; tauto);
+        cbn; intuition discriminate.
+  Qed.
+
+  Lemma edge_stmt_lex kids k r e : edge_stmt rq inf idf kids k r = Ok e -> stmt_ok e.
+  Proof.
+    intros H. apply edge_stmt_ok in H. destruct H as (kr & _ & x & y & -> & _).
+    cbn [stmt_ok fst snd]. destruct (id_digits_ok _ (Hidf x)) as [I1 I2].
+    destruct (id_digits_ok _ (Hidf y)) as [I3 _].
+    split; [exact I2|]. split; [exact I1|]. split; [exact I3|].
+    assert (Kh : id_ok k_lhead) by (split; [discriminate|reflexivity]).
+    assert (Kt : id_ok k_ltail) by (split; [discriminate|reflexivity]).
+    apply Forall_app. split.
+    - destruct k; cbn [lhead_of]; [constructor|].
+      constructor; [split; [exact Kh|apply cluster_ok]|constructor].
+    - destruct kr; cbn [ltail_of]; [constructor|].
+      constructor; [split; [exact Kt|apply cluster_ok]|constructor].
+  Qed.
+
+  Lemma header_ok a : Forall attr_ok a -> Forall stmt_ok (header a).
+  Proof.
+    intros Ha. unfold header. constructor; [|constructor; [exact Ha|constructor]].
+    cbn [stmt_ok]. split; [split; reflexivity|]. split; (split; [discriminate|reflexivity]).
+  Qed.
+
+  Lemma stmt_ok_sub n b : id_ok n -> Forall stmt_ok b -> stmt_ok (SSub n b).
+  Proof. intros Hn Hb. cbn [stmt_ok]. split; [exact Hn|]. apply stmt_ok_Forall. exact Hb. Qed.
+
+  Lemma body_lex t : forall b, body rq inf idf t = Ok b -> Forall stmt_ok b.
+  Proof.
+    induction t as [i|i kids IH] using jtree_ind2; intros b H.
+    - cbn in H. inversion H. constructor.
+    - cbn [body] in H. destruct (topo rq (map tid kids)) as [order r].
+      destruct (tres_eqb r TOk); [|discriminate].
+      apply rconcat_map_Ok in H. destruct H as (bs & HF & ->).
+      induction HF as [|j pj ord bs Hj HF IHF]; [constructor|].
+      cbn [concat]. apply Forall_app. split; [|exact IHF].
+      unfold job_stmts in Hj. rewrite lookup_app_find in Hj.
+      destruct (find_kid j kids) as [k|] eqn:Ef; [|discriminate]. cbn [option_map flat_res] in Hj.
+      destruct (own_stmt inf idf (body rq inf idf) k) as [s|] eqn:Eo; [|discriminate].
+      destruct (edge_stmts rq inf idf kids k) as [es|] eqn:Ee; [|discriminate].
+      inversion Hj; subst pj. constructor.
+      + destruct (find_kid_In _ _ _ Ef) as [Hin _].
+        destruct k as [a|a ks]; cbn [own_stmt] in Eo.
+        * injection Eo as <-. cbn [stmt_ok]. destruct (id_digits_ok _ (Hidf a)) as [I1 I2].
+          split; [exact I2|]. split; [exact I1|]. apply style_attrs_ok.
+        * destruct (body rq inf idf (Sched a ks)) as [bk|] eqn:Eb; [|discriminate].
+          injection Eo as <-. apply stmt_ok_sub; [apply cluster_ok|].
+          change (Forall stmt_ok (header (style_attrs inf idf false a) ++ bk)).
+          apply Forall_app. split.
+          -- apply header_ok. apply style_attrs_ok.
+          -- rewrite Forall_forall in IH. apply (IH _ Hin). exact Eb.
+      + unfold edge_stmts in Ee. apply rmapM_Ok in Ee.
+        clear -Ee Hidf. induction Ee as [|r e l es Hre Hl IHe]; constructor; auto.
+        eapply edge_stmt_lex; eauto.
+  Qed.
+End Lexable.
+
+Definition labels_ok (inf : infos) : Prop := forall j l, jlabel (inf j) = Some l -> ~ In 92%N l.
+
+Lemma dot_ast_ok rq inf t g : labels_ok inf -> dot_ast rq inf t = Ok g -> graph_ok g.
+Proof.
+  intros Hlab H. unfold dot_ast in H. destruct (set_ids rq t) as [[ids nxt]|]; [|discriminate].
+  set (idf := fun j => fmt (id_width (tree_size t - 1)) (assoc_id ids j)) in *.
+  destruct (body rq inf idf t) as [b|] eqn:Eb; [|discriminate]. inversion H; subst g.
+  assert (Hidf : forall j, id_digits (idf j)) by (intros j; apply fmt_digits).
+  split; cbn [gname gbody].
+  - split; [discriminate|reflexivity].
+  - change (Forall stmt_ok (header [] ++ b)). apply Forall_app. split.
+    + apply header_ok. constructor.
+    + eapply body_lex; eauto.
+Qed.
+
+(* dot_format() is valid DOT (in the subset grammar) and reads back as the abstract graph *)
+Theorem dot_roundtrip rq inf t g : labels_ok inf -> dot_ast rq inf t = Ok g ->
+  dot_bytes rq inf t = Ok (render (print_graph g)) /\
+  parse (render (print_graph g)) = Some g.
+Proof.
+  intros Hlab H. split.
+  - unfold dot_bytes, dot_tokens. rewrite H. reflexivity.
+  - apply parse_render_print. eapply dot_ast_ok; eauto.
+Qed.
